@@ -16,6 +16,12 @@ package c13
 //                   installs a TracerProvider that counts start / end of that span. "started == ended" is the barrier
 //                   "no download goroutine is alive": after it the cache and the in-flight slot are up to date, and it is
 //                   also the precise form of "no goroutine outlives the case".
+//   * hold hook     the library (build tag verif) calls rp.VerifAfterInflightDone on the download goroutine right after the result
+//                   of a finished download has been handed to its waiters. While a schedule has the hook armed, the harness
+//                   parks every download goroutine that reaches that point (the goroutine is identified by its id, recorded
+//                   when its updateKeys span starts, so a goroutine can only ever be parked in the world of its own case);
+//                   "parked at the hook" then replaces "span ended" as the state of rest of that goroutine, and the schedule
+//                   decides when it goes on (event "unhold"). A caller goroutine is never parked.
 //   * world         mutex + condition variable over all of the above; the scheduler awaits predicates on it. The only
 //                   wall-clock element is the generous deadline that turns a hang into a violation with the event trace.
 
@@ -26,6 +32,7 @@ import (
 	"fmt"
 	"io"
 	"net/http"
+	"runtime"
 	"sync"
 	"sync/atomic"
 	"time"
@@ -51,10 +58,12 @@ type updSpan struct {
 	noop.Span
 	w    *world
 	once *sync.Once
+	gid  uint64
 }
 
 func (s updSpan) End(...trace.SpanEndOption) {
 	s.once.Do(func() {
+		goWorld.Delete(s.gid)
 		s.w.mu.Lock()
 		s.w.updEnd++
 		s.w.logf("download goroutine finished (%d/%d)", s.w.updEnd, s.w.updStart)
@@ -66,11 +75,13 @@ func (s updSpan) End(...trace.SpanEndOption) {
 func (tracer) Start(ctx context.Context, name string, _ ...trace.SpanStartOption) (context.Context, trace.Span) {
 	if name == "updateKeys" {
 		if w := curWorld.Load(); w != nil {
+			gid := goid()
+			goWorld.Store(gid, w)
 			w.mu.Lock()
 			w.updStart++
 			w.cond.Broadcast()
 			w.mu.Unlock()
-			sp := updSpan{w: w, once: new(sync.Once)}
+			sp := updSpan{w: w, once: new(sync.Once), gid: gid}
 			return trace.ContextWithSpan(ctx, sp), sp
 		}
 	}
@@ -79,6 +90,79 @@ func (tracer) Start(ctx context.Context, name string, _ ...trace.SpanStartOption
 }
 
 func init() { otel.SetTracerProvider(tracerProvider{}) }
+
+// ---- hold hook ------------------------------------------------------------------------
+
+// goWorld: id of a goroutine that is inside updateKeys (its span started and has not ended) -> the world of its case.
+// goCaller: ids of the harness' own caller goroutines (a download that runs on a caller's goroutine is never parked).
+var (
+	goWorld  sync.Map
+	goCaller sync.Map
+)
+
+// goid: the id of the calling goroutine ("goroutine 123 [running]:" is the first line of its stack).
+func goid() uint64 {
+	var buf [64]byte
+	n := runtime.Stack(buf[:], false)
+	var id uint64
+	for _, c := range buf[len("goroutine "):n] {
+		if c < '0' || c > '9' {
+			break
+		}
+		id = id*10 + uint64(c-'0')
+	}
+	return id
+}
+
+// holdHook is what rp.VerifAfterInflightDone is set to while a case runs: the library calls it on the download goroutine
+// right after the result of the finished download was handed to the waiters. If the schedule has the hook armed the
+// goroutine is parked here until the schedule releases it.
+func holdHook() {
+	gid := goid()
+	v, ok := goWorld.Load(gid)
+	if !ok {
+		return // not a download goroutine the tracer has seen
+	}
+	w := v.(*world)
+	if curWorld.Load() != w {
+		return // a goroutine of another case
+	}
+	if _, isCaller := goCaller.Load(gid); isCaller {
+		return
+	}
+	w.mu.Lock()
+	if !w.holdArmed {
+		w.mu.Unlock()
+		return
+	}
+	w.held++
+	w.heldTotal++
+	ch := w.holdCh
+	w.logf("download goroutine is held at the point 'result handed to the waiters' (held now: %d)", w.held)
+	w.cond.Broadcast()
+	w.mu.Unlock()
+	<-ch
+}
+
+// arm (w.mu held): from now on every download goroutine that reaches the hook is parked there.
+func (w *world) arm() {
+	if !w.holdArmed {
+		w.holdArmed = true
+		w.holdCh = make(chan struct{})
+	}
+}
+
+// unhold (w.mu held): the parked download goroutines go on, later ones are not parked. Returns how many were parked.
+func (w *world) unhold() int {
+	n := w.held
+	if w.holdArmed {
+		w.holdArmed = false
+		close(w.holdCh)
+		w.holdCh = nil
+	}
+	w.held = 0
+	return n
+}
 
 // ---- probe context -----------------------------------------------------------------
 
@@ -189,6 +273,9 @@ type callerRT struct {
 	retAt          time.Time // wall clock right after the last call returned (t1 of the bracket for the caller's own deadline)
 	otherDeadline  bool      // the deadline of another waiter passed while this caller was parked
 	ownerDeadline  bool      // the deadline of the caller that started the download passed while this caller was parked on it
+	// hold plans
+	window   bool  // the caller started while a finished download was parked at the hook (result handed out, goroutine not finished)
+	cacheAlt []JWK // window callers: the model cache as it was before the parked downloads were answered
 }
 
 // self-test access to the world of the last case
@@ -214,6 +301,11 @@ type world struct {
 	updEnd      int
 	callers     []*callerRT
 	running     int // caller goroutines alive
+	// hold hook
+	holdArmed bool          // download goroutines that reach the hook are parked
+	holdCh    chan struct{} // closed by unhold
+	held      int           // download goroutines parked at the hook now
+	heldTotal int           // download goroutines that were ever parked
 
 	timedOut bool
 	armSeq   int
@@ -315,13 +407,14 @@ func (w *world) openGate() {
 	close(w.gate)
 }
 
-// quiet: no request inside the endpoint and no download goroutine alive.
-func (w *world) quiet() bool { return w.inRT == 0 && w.updStart == w.updEnd }
+// quiet: no request inside the endpoint and no download goroutine in motion (alive ones are parked at the hold hook).
+func (w *world) quiet() bool { return w.inRT == 0 && w.updStart-w.updEnd == w.held }
 
-// stable: every download goroutine that is alive sits at the gate (nothing is in motion between library and endpoint).
+// stable: every download goroutine that is alive sits at the gate or is parked at the hold hook (nothing is in motion
+// between library and endpoint).
 func (w *world) stable() bool {
 	b := w.blockedReqs()
-	return w.inRT == b && w.updStart-w.updEnd == b
+	return w.inRT == b && w.updStart-w.updEnd-w.held == b
 }
 
 // ---- endpoint --------------------------------------------------------------------------
